@@ -231,8 +231,8 @@ PROPS['C14'] = {
 UNIT_TIMEOUT['api'] = 600
 
 PROPS['C15'] = {
-    'units': ['api', 'eval', 'ops', 'front', 'lex', 'tree', 'mark', 'canon'],
-    'functions': {'canon': [], 'mark': [], 'api': ['sanitize_colored_vertices', '_model_check_multiple_trees', 'model_check_multiple_trees', '_model_check_tree', 'model_check_tree',
+    'units': ['api', 'eval', 'ops', 'front', 'lex', 'tree', 'mark', 'canon', 'tool'],
+    'functions': {'canon': [], 'mark': [], 'tool': ['get_extended_symbolic_graph'], 'api': ['sanitize_colored_vertices', '_model_check_multiple_trees', 'model_check_multiple_trees', '_model_check_tree', 'model_check_tree',
                           '_model_check_multiple_formulae', 'model_check_multiple_formulae', '_model_check_formula', 'model_check_formula',
                           '_model_check_multiple_trees_dirty', '_model_check_multiple_formulae_dirty', 'parse_and_validate'],
                   'eval': ['eval_node'], 'ops': [], 'front': [], 'lex': [], 'tree': []},
@@ -240,7 +240,8 @@ PROPS['C15'] = {
                    'fail for the results of closed plain formulae: lemma_sem_indep (induction on the tree, 12 operator lemmas) shows that the semantics of a '
                    'formula depends only on the auxiliary copies of its free variables, hence not at all for a closed one; the sanitising entry points are '
                    'proved to return exactly the raw result. All contracts are stated for an arbitrary number dim_k() of spare variable sets, so the result '
-                   'is the same set of (state, colour) pairs for every k >= nesting depth.'),
+                   'is the same set of (state, colour) pairs for every k >= nesting depth. get_extended_symbolic_graph (unit tool, day 4) is proved to give EVERY network variable exactly k spare variables '
+                   'and the constant-true unit BDD (against assumed contracts of the library constructors).'),
     'level_note': 'Assumed: the contract of SymbolicContext::transfer_from / as_canonical_context (succeeds iff the BDD does not depend on the auxiliary variables; a canonical BDD is modelled by its cylinder). R-mapcollect rewrites `results.iter().map(|x| sanitize(..)).collect()` into the explicit loop. Plain formulae only; known findings D5 / D8 apply (a wrongly shared result may depend on auxiliary variables).',
     'explanation': 'spec/indep.rs; contracts/api.ctr (sanitize_colored_vertices and the non-dirty entry points).',
     'trusted': _EVAL_TRUSTED, 'assumptions': _EVAL_ASSUME,
@@ -358,11 +359,12 @@ PROPS['C17'] = {
     'level_note': ('NOT decided: the process level (clap argument parsing, reading the model file, main(), the text written to stdout, the bytes of the zip archive, '
                    'reading a context archive back) and the extended mode (context archive given: the contract requires context_archive_path is None; that branch is type-checked only). '
                    'Preconditions: the network has at least one variable; formula texts shorter than 2^32 characters whose trees are small (as for the library entry points) and need at most 65535 variable sets '
-                   '(`max_num_hctl_vars as u16`). ASSUMED: SymbolicContext::new succeeds on the loaded network; get_extended_symbolic_graph(bn, k) returns a graph of that network with k spare variable sets and the '
-                   'full unit set (foreign constructors); the plain symbolic context and the graph name the same network variables. Failures of the shared evaluator / front end are attributed to C01.. C14, not to C17 '
-                   '(the tool calls the same functions as the library, so it stays equal to the library).'),
+                   '(`max_num_hctl_vars as u16`). ASSUMED: SymbolicContext::new succeeds on the loaded network; the plain symbolic context and the graph name the same network variables. Failures of the shared evaluator / front end are attributed to C01.. C14, not to C17 '
+                   '(the tool calls the same functions as the library, so it stays equal to the library). get_extended_symbolic_graph (src/mc_utils.rs) is VERIFIED since day 4: every network variable is mapped to '
+                   'exactly k spare variables and the unit BDD is the constant true -- against assumed contracts of BooleanNetwork::variables, SymbolicContext::with_extra_state_variables and '
+                   'SymbolicAsyncGraph::with_custom_context (prelude/tool_model.rs: a graph built that way IS the graph of the analysis with k spare variable sets).'),
     'explanation': 'contracts/tool.ctr, spec/tool.rs (result_exact, archive_ok, results_inv, lemma_results_insert), prelude/tool_model.rs; unit tool assumes the contracts of eval_node, from_multiple_trees, compute_steady_states, the parsers and the renamer, which are proved in units eval, mark, front.',
-    'trusted': _EVAL_TRUSTED + ['prelude/tool_model.rs: SystemTime::now, BooleanNetwork::to_string, SymbolicContext::new (assumed Ok), Result::map_err (R-maperr), derive(Clone, Copy) of PrintOptions',
+    'trusted': _EVAL_TRUSTED + ['prelude/tool_model.rs: SystemTime::now, BooleanNetwork::to_string, SymbolicContext::new (assumed Ok), BooleanNetwork::variables (0..n-1), SymbolicContext::with_extra_state_variables (m[v] spare variables for v), axiom_fresh_ready (with_custom_context over a uniform context and the true unit = the graph of the analysis), axiom_vid_injective / axiom_varid_key_model (VariableId = newtype of usize with derived Hash / Eq), Result::map_err (R-maperr), derive(Clone, Copy) of PrintOptions',
                 'output functions print_if_allowed, summarize_results, print_results_full, build_result_archive, load_bdd_bundle are NOT verified (stdout, zip, file system); their preconditions carry the claim',
                 'R-printargs (the text argument of print_if_allowed is opaque), R-enumloop (for (i, x) in v.iter().enumerate() as the index loop), R-callback (local progress observer removed), R-fmt-val',
                 'axiom_dec_digits_inj: the decimal rendering of usize by format! is injective (distinct indices give distinct archive keys)',
